@@ -111,7 +111,15 @@ def run(ctx):
                     if any(isinstance(s, ast.Return) and isinstance(s.value, ast.Constant) and s.value.value is None for s in h.body):
                         ok3 = True
     ex = prog.fn('utils:ObjectWriter.__exit__')
-    none_handled = any(isinstance(n, ast.Compare) and 'existing_checksum' in norm(n.left) and isinstance(n.ops[0], ast.Is)
+    # names of __exit__ that hold the result of the checksum helper (by def-use, not by name)
+    frx = K.top_frame(ex)
+    vnames = set()
+    for n in walk_local(ex.node):
+        if isinstance(n, ast.Assign) and isinstance(n.targets[0], ast.Name) and isinstance(n.value, ast.Call):
+            cal = K.resolve_call(n.value, frx)
+            if cal is not None and cal.kind == 'internal' and cal.target is ch:
+                vnames.add(n.targets[0].id)
+    none_handled = any(isinstance(n, ast.Compare) and isinstance(n.left, ast.Name) and n.left.id in vnames and isinstance(n.ops[0], ast.Is)
                        and isinstance(n.comparators[0], ast.Constant) and n.comparators[0].value is None for n in walk_local(ex.node))
     if ok3 and none_handled:
         chk.ok(Pw3, ch.qualname, 'FileNotFoundError -> None -> writer returns', detail='concurrent disappearance of the destination is tolerated')
